@@ -4524,30 +4524,38 @@ class ResponseFuture(object):
             return
 
         if self._connection is not None:
-            try:
-                self._connection._requests.pop(self._req_id)
+            pool = self.session._pools.get(self._current_host)
+            orphan_stream = bool(pool and not pool.is_shutdown)
+            # the request is removed and its stream recorded as orphaned under one hold of the
+            # connection lock: a response arriving at this moment is handled entirely before or
+            # entirely after (see Connection.process_msg)
+            with self._connection.lock:
+                try:
+                    self._connection._requests.pop(self._req_id)
+                    removed = True
+                except KeyError:
+                    removed = False
+                if removed and orphan_stream:
+                    # Do not return the stream ID to the pool yet. We cannot reuse it
+                    # because the node might still be processing the query and will
+                    # return a late response to that query - if we used such stream
+                    # before the response to the previous query has arrived, the new
+                    # query could get a response from the old query
+                    self._connection.orphaned_request_ids.add(self._req_id)
+                    if len(self._connection.orphaned_request_ids) >= self._connection.orphaned_threshold:
+                        self._connection.orphaned_threshold_reached = True
+
             # PYTHON-1044
             # This request might have been removed from the connection after the latter was defunct by heartbeat.
             # We should still raise OperationTimedOut to reject the future so that the main event thread will not
             # wait for it endlessly
-            except KeyError:
+            if not removed:
                 key = "Connection defunct by heartbeat"
                 errors = {key: "Client request timeout. See Session.execute[_async](timeout)"}
                 self._set_final_exception(OperationTimedOut(errors, self._current_host))
                 return
 
-            pool = self.session._pools.get(self._current_host)
-            if pool and not pool.is_shutdown:
-                # Do not return the stream ID to the pool yet. We cannot reuse it
-                # because the node might still be processing the query and will
-                # return a late response to that query - if we used such stream
-                # before the response to the previous query has arrived, the new
-                # query could get a response from the old query
-                with self._connection.lock:
-                    self._connection.orphaned_request_ids.add(self._req_id)
-                    if len(self._connection.orphaned_request_ids) >= self._connection.orphaned_threshold:
-                        self._connection.orphaned_threshold_reached = True
-
+            if orphan_stream:
                 pool.return_connection(self._connection, stream_was_orphaned=True)
 
         errors = self._errors
